@@ -94,8 +94,13 @@ RULE["C16"] += "; every 40th case writes and reads a never-simulated FS chain of
 RULE["C18"] += "; on logs longer than 100 steps half of the index lists hold 65-130 steps"
 RULE["C19"] += "; 8 % of the encoder logs have 255-1500 records"
 RULE["C20"] += "; every 12th case uses a sub-project that runs for 257 and more steps"
+RULE["C01"] += "; every declared dependency is checked to be present in the built model (both lists)"
+RULE["C06"] += "; pair clause also for a single-task flat component that lies nowhere although a workplace of its task had room throughout the pass"
+RULE["C16"] += "; 12 % of the stage cases use names outside ASCII and one of the encodings utf-8 / ascii / latin-1 / cp932 / utf-16 / shift_jis for write and read"
 for _p in RULE:
-    RULE[_p] += " [generator-wide: 2.5 % of the gen_random models are LARGE (12-36 tasks, up to 72 workers, 72 facilities, 12 components, work up to 1500, absence steps out to step 300, max_time x 8); 4 % of the random models with workplaces share an ID string across classes (team/workplace, worker/facility); individual and project absence lists unsorted in 25 % and with a repeated entry in 5 % of the draws; 6 % of the random models repeat a task name]"
+    RULE[_p] += " [generator-wide: 12 % of the gen_random models carry a boundary value: two links of different kinds between the same tasks, a unit rate on a worker-performed task, component sizes / workplace capacities of 0 and exact fits, the absence argument as tuple / set / range, the rule as a plain int;"
+for _p in RULE:
+    RULE[_p] += " 2.5 % of the gen_random models are LARGE (12-36 tasks, up to 72 workers, 72 facilities, 12 components, work up to 1500, absence steps out to step 300, max_time x 8); 4 % of the random models with workplaces share an ID string across classes (team/workplace, worker/facility); individual and project absence lists unsorted in 25 % and with a repeated entry in 5 % of the draws; 6 % of the random models repeat a task name]"
 # minimal number of non-trivial cases / monitor evaluations for a conclusive run: (counter, quick, thorough)
 FLOORS = {
     "C01": [("C01.transitions", 2000, 50000), ("C01.nonFS_active", 100, 3000)],
